@@ -10,6 +10,10 @@ R15.3  the inline fast path of tagged-int multiplication cannot overflow under i
        is a disjunction of unsigned comparisons of each operand with a constant bound; with the
        largest admitted (even) tagged operands the product stays below 2**(word bits - 1), i.e.
        remains a valid short tagged int (interval arithmetic on the two constants, LP64 assumed).
+R15.4  the inline fast paths of tagged-int `//` and `%` execute a C division only under their
+       fault predicate, whose disjuncts include `right == 0` (C division by zero is undefined /
+       SIGFPE where Python raises ZeroDivisionError) and, for `//`, the most negative short left
+       operand (`MIN / -1` overflows in C).
 R15.2  no silent narrowing of int: each Truncate(...) of a value that may exceed the target range is
        dominated by check_fixed_width_range, which branches to the overflow block on both bounds;
        the remaining Truncate sites are tabled.
@@ -83,6 +87,7 @@ def run(chk: Check) -> None:
             r1.violation(key, f.loc(n), "a raw C division/modulo is emitted without excluding a zero divisor (undefined behaviour / SIGFPE instead of ZeroDivisionError)")
 
     run_multiply_guard(chk, ix)
+    run_division_guards(chk, ix)
 
     r2 = chk.rule("R15.2", "Truncate of a possibly out-of-range value is dominated by check_fixed_width_range, which tests both bounds; other Truncate sites are tabled", floor=7)
     cfr = llb.methods.get("check_fixed_width_range")
@@ -246,3 +251,75 @@ def run_multiply_guard(chk: Check, ix) -> None:
         r3.ok("the inline product of the largest admitted operands stays below 2**63", "mypyc/lib-rt/CPy.h", key)
     else:
         r3.violation("the inline product of the largest admitted operands stays below 2**63", "mypyc/lib-rt/CPy.h", f"CPyTagged_IsMultiplyOverflow admits tagged operands up to {L} and {R} (ints {L // 2} and {R // 2}); the fast path computes {L} * {R // 2} = {L * (R // 2)} >= 2**63 on size_t, which wraps: the compiled `a * b` returns a wrong (negative) int instead of taking the slow path")
+
+
+def run_division_guards(chk: Check, ix) -> None:
+    from ..cfront import function_bodies
+    r4 = chk.rule("R15.4", "CPyTagged_FloorDivide / CPyTagged_Remainder perform the C `/` or `%` only under !Maybe...Fault(left, right); the fault predicate tests `right == 0`, and the floor-division one also `left == -(1 << 63)`", floor=4)
+    names = ["CPyTagged_FloorDivide", "CPyTagged_Remainder", "CPyTagged_MaybeFloorDivideFault", "CPyTagged_MaybeRemainderFault"]
+    bodies = function_bodies(ix.root, "CPy.h", names)
+    for nm in names:
+        if nm not in bodies:
+            raise AnalysisError(f"{nm}: body not found in CPy.h")
+
+    def walk(n):
+        yield n
+        for c in n.get("inner", []):
+            yield from walk(c)
+
+    def disj(n):
+        n = _strip(n)
+        if n["kind"] == "BinaryOperator" and n["opcode"] == "||":
+            return disj(n["inner"][0]) + disj(n["inner"][1])
+        return [n]
+
+    for fn, guard, opcode, need_min in (("CPyTagged_FloorDivide", "CPyTagged_MaybeFloorDivideFault", "/", True), ("CPyTagged_Remainder", "CPyTagged_MaybeRemainderFault", "%", False)):
+        f = bodies[fn]
+        # every C division in the function sits inside an `if` whose condition negates the guard call
+        ok_all = True
+        n_div = 0
+        def visit(n, guarded):
+            nonlocal ok_all, n_div
+            if n["kind"] == "IfStmt":
+                cond = n["inner"][0]
+                g_here = any(x["kind"] == "UnaryOperator" and x.get("opcode") == "!" and _strip(x["inner"][0]).get("kind") == "CallExpr" and _strip(_strip(x["inner"][0])["inner"][0]).get("ref") == guard for x in walk(cond))
+                visit(cond, guarded)
+                if len(n["inner"]) > 1:
+                    visit(n["inner"][1], guarded or g_here)
+                for rest in n["inner"][2:]:
+                    visit(rest, guarded)
+                return
+            if n["kind"] == "BinaryOperator" and n.get("opcode") == opcode:
+                n_div += 1
+                if not guarded:
+                    ok_all = False
+            for c in n.get("inner", []):
+                visit(c, guarded)
+        visit(f, False)
+        key = f"{fn}: the C `{opcode}` is executed only under !{guard}(left, right)"
+        if n_div and ok_all:
+            r4.ok(key, "mypyc/lib-rt/CPy.h")
+        else:
+            r4.violation(key, "mypyc/lib-rt/CPy.h", f"{n_div} C `{opcode}` operation(s), not all under the fault guard: a zero divisor reaches the hardware division (SIGFPE instead of ZeroDivisionError)")
+        g = bodies[guard]
+        params = [c["name"] for c in g["inner"] if c["kind"] == "ParmVarDecl"]
+        rets = [n for n in walk(g) if n["kind"] == "ReturnStmt"]
+        ds = disj(rets[0]["inner"][0]) if len(rets) == 1 else []
+        zero = False
+        minleft = False
+        for d in ds:
+            if d["kind"] == "BinaryOperator" and d["opcode"] == "==":
+                lhs = _strip(d["inner"][0])
+                try:
+                    val = _const(d["inner"][1], {})
+                except AnalysisError:
+                    continue
+                if lhs.get("ref") == params[1] and val == 0:
+                    zero = True
+                if lhs.get("ref") == params[0] and val % (1 << 64) == (1 << 63):
+                    minleft = True
+        key = f"{guard}: reports a fault for right == 0" + (" and for the most negative left operand" if need_min else "")
+        if zero and (minleft or not need_min):
+            r4.ok(key, "mypyc/lib-rt/CPy.h")
+        else:
+            r4.violation(key, "mypyc/lib-rt/CPy.h", f"fault predicate covers right == 0: {zero}" + (f"; left == -(1 << 63): {minleft}" if need_min else "") + " — the uncovered case reaches the C division (division by zero, or MIN / -1 overflow)")
